@@ -31,7 +31,8 @@ ASSUMPTIONS = E1_ASSUMPTIONS + [
 PROBES = ["depth_ge_3", "empty_dir", "dir_without_cmake", "mixed_case_ext", "nonrecursive_with_subdirs",
           "auto_exclude_off", "out_nested", "out_abs", "out_rel", "dotted_or_dashed_name", "patterns_present",
           "fault_fired_open_w", "fault_fired_write", "fault_fired_close_w", "fault_fired_mkdir", "fault_fired_open_r",
-          "fault_run_failed", "fault_run_survived", "single_file_compared"]
+          "fault_run_failed", "fault_run_survived", "single_file_compared", "crash_then_rerun",
+          "crash_left_torn_or_partial_page"]
 
 SAFE_LOC = ["w1", "site", "work", "ci", "checkout"]
 PREFIXES = ["pfx", "My.Pkg", "top-level", "p"]
@@ -57,7 +58,8 @@ TREE_KW = {"wide": dict(max_depth=2, max_files=3, max_subdirs=3, max_cmds=3, bud
 
 FAULT_KINDS = [("open_w", "ENOSPC"), ("open_w", "EACCES"), ("write", "ENOSPC"), ("write", "EIO"),
                ("close_w", "ENOSPC"), ("close_w", "EIO"), ("mkdir", "EACCES"), ("mkdir", "ENOSPC"),
-               ("mkdir", "RACE"), ("mkdir", "RACE"), ("open_r", "EIO"), ("open_r", "EACCES")]
+               ("mkdir", "RACE"), ("mkdir", "RACE"), ("open_r", "EIO"), ("open_r", "EACCES"),
+               ("open_w", "CRASH"), ("write", "CRASH"), ("close_w", "CRASH"), ("mkdir", "CRASH")]
 
 
 def draw_faults(draw):
@@ -282,6 +284,27 @@ def evaluate(spec, ctx):
                 elif pages != ref_pages:
                     diff = sorted(k for k in set(pages) | set(ref_pages) if pages.get(k) != ref_pages.get(k))
                     viols.append(viol("output-depends-on-schedule", f"{where}: differs from variant 0 in {diff[:6]}"))
+            elif any(f["errno"] == "CRASH" for f in res.fired) and spec["out_kind"] == "nested":
+                # re-running over a partial output directory that sits inside the input tree would document the
+                # output itself (the self-referential placement the assumptions exclude): not judged
+                ctx.discarded["crash-rerun-with-nested-output"] += 1
+            elif any(f["errno"] == "CRASH" for f in res.fired):
+                # the process was killed mid-run; whatever reached the disk stays (possibly a torn page).
+                # Restart: the same command, no faults, on top of the partial tree, must yield the complete tree.
+                ctx.probes["crash_then_rerun"] += 1
+                if any(k in pages and ref_pages is not None and pages[k] != ref_pages.get(k) for k in pages):
+                    ctx.probes["crash_left_torn_or_partial_page"] += 1
+                overlay, argv = variant_setup(spec, var)
+                r2 = core.run_call(base, {"cwd": var["cwd"], "argv": argv, "listing_key": var["listing_key"],
+                                          "listing_explicit": var["listing_explicit"]})
+                ctx.note_call(r2)
+                pages2 = core.read_tree(base, out)
+                if r2.status != 0:
+                    viols.append(viol("rerun-after-crash-failed", f"{where}: status {r2.status} exc {r2.exc}"))
+                elif ref_pages is not None and pages2 != ref_pages:
+                    diff = sorted(k for k in set(pages2) | set(ref_pages) if pages2.get(k) != ref_pages.get(k))
+                    viols.append(viol("rerun-after-crash-incomplete",
+                                      f"{where}: killed at {res.fired}; after re-running, {diff[:5]} differ from the fault-free tree"))
             else:
                 # an I/O error was injected while output was in flight
                 if res.status == 0:
@@ -347,11 +370,13 @@ MANIFEST = {
     "engine": "E1 simworld",
     "design_ref": "DESIGN.md section 3 (C13), section 2",
     "technique": "deterministic simulation: seeded directory worlds x listing schedules x I/O fault plans (ENOSPC/EACCES/EIO at "
-                 "open/write/close/mkdir, mkdir race) against a reference walk and CMinx single-file runs as differential oracle",
+                 "open/write/close/mkdir, mkdir race, crash-and-rerun) against a reference walk and CMinx single-file runs as differential oracle",
     "level_text": "Seeded exploration with fault injection: set equality of the files written under the output directory with an "
                   "independent reference walk (so 'nothing else' is enforced), schedule independence across listing orders, page "
                   "content against a single-file run of the same CLI, and under injected I/O errors: never exit 0 with a missing "
-                  "or short page, never a file outside the expected set; a mkdir race must be survived with the full tree.",
+                  "or short page, never a file outside the expected set; a mkdir race must be survived with the full tree; a simulated "
+                  "kill (crash) at an arbitrary open/write/close/mkdir followed by a plain re-run must yield exactly the fault-free "
+                  "tree (no torn page survives a restart).",
     "level_note": "trusted: reference walk (30 lines) and gitignore matcher, tmpfs, libraries as installed; ambiguous worlds "
                   "(directory emptied by exclusion under auto-exclusion) are not judged by set equality",
 }
